@@ -28,6 +28,7 @@ func c12Parent(c *mon.Ctx) {
 	}
 	sh := shards("plain", "scripts", 16, "-n", fmt.Sprint(per))
 	sh = append(sh, shards("plain", "soup", 4, "-n", fmt.Sprint(per*2))...)
+	sh = append(sh, shards("plain", "long", 1)...)
 	res := c.RunShards(sh, 16)
 	c.ClassifyDeaths(res, "recovery parsing terminates")
 }
@@ -102,6 +103,35 @@ func c12Child(a *ChildArgs) {
 			g := gen.New(r, avoid)
 			c12Script(a, r, g, i)
 		}
+	case "long":
+		// long scripts: one parser serves hundreds of statements, so whatever a malformed statement leaves behind adds up
+		bads := []string{"INSERT INTO t VALUES (1, -)", "SELECT - FROM t", "SELECT a FROM t WHERE (a = ", "SELECT f(", "SELECT CASE WHEN a THEN", "SELECT a FROM t WHERE a IN (1,", "SELECT NOT",
+			"UPDATE t SET a = -", "SELECT +(1", "SELECT a FROM t WHERE - - - ", "DELETE FROM t WHERE a BETWEEN 1 AND", "SELECT CAST(a AS", "SELECT a[", "SELECT (((((", "SELECT a FROM t LIMIT 1, 2"}
+		goods := []string{"SELECT COUNT(a) FROM t WHERE (a = 1)", "SELECT a FROM t WHERE b IN (SELECT c FROM u WHERE (d = 1))", "SELECT CASE WHEN (a = 1) THEN f(g(b)) ELSE -c END FROM t", "SELECT a FROM t"}
+		for bi, bad := range bads {
+			if _, err := gosqlx.Parse(bad); err == nil {
+				continue
+			}
+			for _, n := range []int{30, 130} {
+				var segs []segment
+				for k := 0; k < n; k++ {
+					segs = append(segs, segment{sql: bad, bad: true, kind: fmt.Sprintf("long-%d", bi)})
+					if k%40 == 39 {
+						gs := goods[(k/40)%len(goods)]
+						t, _ := gosqlx.Parse(gs)
+						segs = append(segs, segment{sql: gs, tree: dump.Tree(&ast.AST{Statements: t.Statements}).String()})
+					}
+				}
+				for _, gs := range goods {
+					t, _ := gosqlx.Parse(gs)
+					segs = append(segs, segment{sql: gs, tree: dump.Tree(&ast.AST{Statements: t.Statements}).String()})
+				}
+				c12Judge(a, bi%2 == 0, segs, false)
+			}
+		}
+		// the MySQL LIMIT form inside scripts, for the dialect differential
+		c12Dialect(a, "SELECT a FROM t LIMIT 1, 2 ; SELECT b FROM u ; SELECT c FROM v LIMIT 3, 4")
+		c12Dialect(a, "SELECT a FROM t LIMIT 1, 2 ; SELECT FROM ; SELECT c FROM v LIMIT 3, 4 ;")
 	case "soup":
 		words := []string{"SELECT", "FROM", "WHERE", "a", "b", "t", "(", ")", ",", ";", "1", "'x'", "=", "+", "AND", "OR", "NOT", "JOIN", "ON", "GROUP", "BY", "ORDER", "INSERT", "INTO", "VALUES",
 			"UPDATE", "SET", "DELETE", "CASE", "WHEN", "THEN", "END", "*", ".", "::", "[", "]", "WITH", "AS", "UNION", "IN", "BETWEEN", "LIKE", "IS", "NULL", "CREATE", "TABLE", "DROP", "-", "||", "OVER", "PARTITION", "LIMIT", "EXISTS", "ARRAY", "INTERVAL", "CAST", "MERGE", "USING", "MATCHED"}
@@ -188,6 +218,11 @@ func c12Script(a *ChildArgs, r *rand.Rand, g *gen.G, i int) {
 		}
 		segs = append(segs, segment{sql: s, tree: dump.Tree(&ast.AST{Statements: t.Statements}).String()})
 	}
+	c12Judge(a, r.Intn(2) == 0, segs, i < 2)
+}
+
+// c12Judge applies the script oracle to a list of segments.
+func c12Judge(a *ChildArgs, trailingSemi bool, segs []segment, sample bool) {
 	var parts []string
 	nbad, ngood := 0, 0
 	for _, s := range segs {
@@ -199,7 +234,7 @@ func c12Script(a *ChildArgs, r *rand.Rand, g *gen.G, i int) {
 		}
 	}
 	script := strings.Join(parts, " ; ")
-	if r.Intn(2) == 0 {
+	if trailingSemi {
 		script += " ;"
 	}
 	if nbad > 0 && ngood > 0 {
@@ -272,8 +307,37 @@ func c12Script(a *ChildArgs, r *rand.Rand, g *gen.G, i int) {
 			}
 		}
 	}
-	if i < 2 {
+	if sample {
 		a.Rec.Sample("script", 2, wit)
+	}
+	c12Dialect(a, script)
+}
+
+// c12Dialect: a parser configured for a dialect must honour it in recovery mode exactly as in strict mode.
+func c12Dialect(a *ChildArgs, script string) {
+	for _, dialect := range []string{"mysql", "postgresql"} {
+		tk := mustTokenizer()
+		toks, err := tk.Tokenize([]byte(script))
+		if err != nil {
+			return
+		}
+		ps := parser.NewParser(parser.WithDialect(dialect))
+		strict, serr := ps.ParseFromModelTokens(toks)
+		ps.Release()
+		pr := parser.NewParser(parser.WithDialect(dialect))
+		stmts, errs := pr.ParseWithRecoveryFromModelTokens(toks)
+		pr.Release()
+		a.Rec.Count("evaluations", 1)
+		wit := map[string]interface{}{"script": script, "dialect": dialect}
+		if (serr != nil) != (len(errs) > 0) {
+			a.Rec.Viol("C12/dialect/"+dialect+"/iff", "recovery reports an error exactly when strict parsing fails", fmt.Sprintf("dialect %s: strict err=%v; recovery errors=%d (%s)", dialect, serr, len(errs), firstErr(errs)), wit)
+			continue
+		}
+		if serr == nil && strict != nil {
+			if got, want := dump.Tree(&ast.AST{Statements: stmts}).String(), dump.Tree(&ast.AST{Statements: strict.Statements}).String(); got != want {
+				a.Rec.Viol("C12/dialect/"+dialect+"/statements", "returns precisely the trees strict parsing gives", "recovery and strict trees differ under dialect "+dialect, wit)
+			}
+		}
 	}
 }
 
